@@ -9,14 +9,14 @@ OUT = os.path.join(VERIF, "seeded")
 props = {json.loads(l)["id"]: json.loads(l)["title"] for l in open(os.path.join(VERIF, "properties.jsonl"))}
 rows = []
 for root in sys.argv[1:]:
-    rnd = "r2" if root.rstrip("/").endswith("2") else "r1"
+    rnd = "r2" if root.rstrip("/").endswith("2") else ("r3" if root.rstrip("/").endswith("3") else "r1")
     for sd in sorted(glob.glob(os.path.join(root, "C??", "?"))):
         cj = os.path.join(sd, "confirm.json")
         if not os.path.exists(cj): continue
         c = json.load(open(cj))
         if not (c.get("applies") and c.get("tests_pass") and c.get("demo_differs_with_change")): continue
         pid, var = sd.split("/")[-2], sd.split("/")[-1]
-        name = "%s-%s%s" % (pid, var, "" if rnd == "r1" else "-r2")
+        name = "%s-%s%s" % (pid, var, "" if rnd == "r1" else "-" + rnd)
         dst = os.path.join(OUT, name)
         shutil.rmtree(dst, ignore_errors=True)
         os.makedirs(dst)
